@@ -472,6 +472,7 @@ func checkC13(p *Prog, r *Report) {
 	rulePolicyOfTheCodeUsed(p, r)
 	ruleWholeFileComparison(p, r, reader)
 	ruleChangeSignalLogged(p, r)
+	ruleFailedApproveKeepsHistoryConsistent(p, r)
 	r.Trusted = []string{"go/ssa construction", "both sides share the struct type status.status, so field names agree by construction"}
 	r.NotDec = "sufficiency of the two-slot encoding over all event histories; bzip2/removal cases at run time; clock monotonicity"
 }
@@ -945,7 +946,7 @@ func rulePolicyOfTheCodeUsed(p *Prog, r *Report) {
 
 // ruleWholeFileComparison: R13.8.
 func ruleWholeFileComparison(p *Prog, r *Report, reader *ssa.Function) {
-	r.rule("R13.8", "The reader decides 'same code' by comparing complete file contents: the decision to list the device is an If on the result of slices.Equal / bytes.Equal (or == on strings), and both operands are whole reads — result 0 of os.ReadFile, or of io.ReadAll on a reader built only from os.Open and bzip2.NewReader (no io.LimitReader / section reader / re-slice), possibly through a module helper all of whose returns have that form (nil for a missing file).")
+	r.rule("R13.8", "The reader decides 'same code' by comparing complete file contents: the decision to list the device is an If on the result of slices.Equal / bytes.Equal (or == on strings), and both operands are whole reads — result 0 of os.ReadFile, or of io.ReadAll on a reader built only from os.Open and bzip2.NewReader (no io.LimitReader / section reader / re-slice), possibly through a module helper all of whose returns have that form (nil for a missing file); every iteration of the loop over the parts reaches that comparison (a part missing on one side is a difference, not a reason to skip).")
 	var whole func(v ssa.Value, d int) string
 	whole = func(v ssa.Value, d int) string {
 		if d > 6 {
@@ -1059,6 +1060,39 @@ func ruleWholeFileComparison(p *Prog, r *Report, reader *ssa.Function) {
 		}
 		r.add("R13.8", "whole-contents|"+shortName(reader), p.ipos(cs.In), "both sides of the code comparison are complete file contents", bad == "",
 			"files that differ beyond the compared part are taken as equal and the device is omitted: "+bad)
+		// every part is compared: no iteration of the loop over the parts skips the comparison
+		var h *ssa.BasicBlock
+		var body map[*ssa.BasicBlock]bool
+		for _, hb := range reader.Blocks {
+			if bd := naturalLoopBody(hb); bd != nil && bd[cs.In.Block()] && (body == nil || len(bd) < len(body)) {
+				h, body = hb, bd
+			}
+		}
+		if h == nil {
+			r.fail("R13.8", "every-part-compared|"+shortName(reader), p.ipos(cs.In), "the content comparison is not inside the loop over the parts", "")
+		} else {
+			seen := map[*ssa.BasicBlock]bool{}
+			skipped := false
+			var walk func(b *ssa.BasicBlock)
+			walk = func(b *ssa.BasicBlock) {
+				if seen[b] || !body[b] || b == cs.In.Block() {
+					return
+				}
+				seen[b] = true
+				for _, sx := range b.Succs {
+					if sx == h {
+						skipped = true
+						return
+					}
+					walk(sx)
+				}
+			}
+			for _, sx := range h.Succs {
+				walk(sx)
+			}
+			r.add("R13.8", "every-part-compared|"+shortName(reader), p.ipos(cs.In), "every iteration of the loop over the parts (code, ipv6, raw) reaches the content comparison", !skipped,
+				"some parts are skipped without comparison (e.g. when the file is missing on one side): a device whose raw or IPv6 part was removed or added is omitted")
+		}
 	}
 	r.floor("R13.8", "content comparisons in the reader", n, 1)
 }
@@ -1163,4 +1197,36 @@ func ruleChangeSignalLogged(p *Prog, r *Report) {
 		}
 	}
 	r.floor("R13.9", "calls from do-approve that set errlog.Quiet", nq, 1)
+}
+
+// ruleFailedApproveKeepsHistoryConsistent: R13.10.
+func ruleFailedApproveKeepsHistoryConsistent(p *Prog, r *Report) {
+	r.rule("R13.10", "A failed approve does not make an outdated compare verdict authoritative: the writer that stores the failure constant into the approve slot (overwriting the record of the last successful approve, which the reader would have preferred over any older compare) also resets the compare slot on the failure path, under a comparison of Compare.Time with the overwritten Approve.Time. History that fails otherwise: compare UPTODATE p1; approve OK p2; approve FAILED p3 with p3's code equal to p1's — the reader falls back to the compare of p1 and omits a device that carries p2's code.")
+	fn := p.Fn("status.SetApprove")
+	if fn == nil {
+		r.fail("R13.10", "anchor|status.SetApprove", "", "not found", "")
+		return
+	}
+	// stores into the Compare slot (whole struct or its fields) inside SetApprove
+	reset := false
+	timeCmp := false
+	for _, b := range fn.Blocks {
+		for _, in := range b.Instrs {
+			st, ok := in.(*ssa.Store)
+			if !ok {
+				continue
+			}
+			path, _ := fieldPath(st.Addr)
+			if len(path) >= 1 && path[0] == "Compare" {
+				reset = true
+				for _, g := range guardSet(st) {
+					if strings.Contains(g, "status.action.Time") || strings.Contains(g, ".Time") {
+						timeCmp = true
+					}
+				}
+			}
+		}
+	}
+	r.add("R13.10", "failed-approve-resets-older-compare|status.SetApprove", p.pos(fn.Pos()), "on the failure path the compare slot is reset when it is older than the overwritten successful approve", reset && timeCmp,
+		"after approve OK p2 and approve FAILED p3 an older compare UPTODATE p1 decides: with p3's code equal to p1's the device is omitted although it carries p2's code")
 }
